@@ -39,6 +39,7 @@ inline void fill_u64(Buf& b, uint64_t salt, uint64_t mask = ~0ull) {
 inline void fill_u32(Buf& b, uint64_t salt) {
   for (size_t i = 0; i < b.bytes / 4; ++i) { uint32_t v = (uint32_t)(((i + salt + 1) * 0x9E3779B97F4A7C15ull) >> 32); if ((i + salt) % 13 == 0) v = ~0u; memcpy(&b.init[i * 4], &v, 4); }
 }
+inline int64_t vec_like_b(uint64_t e) { if (e == 0) return (INT64_C(1) << 62) - 1; if (e == 1) return (INT64_C(1) << 62) - 2; return probe62((UINT64_C(1) << 40) + e); }
 inline void mask_all(Buf& b, uint8_t v) { if (b.bytes) memset(b.mask.data(), v, b.bytes); }
 
 // allocation-tracked table constructor: returns the blocks allocated by ctor()
@@ -427,6 +428,24 @@ inline void run_kernel_group(const KernelGroup& G, bool thorough, const KFn& fn)
             } };
           fn(c, ki);
         }
+      }
+      // element-wise int64 kernels, reference and AVX
+      for (int av = 0; av < 2; ++av) for (int w = 0; w < 3; ++w) {
+        static const char* wn[] = {"znx_add_i64", "znx_sub_i64", "znx_negate_i64"};
+        ApiCase c; c.id = sfmt("kernel|%s_%s|nn=%llu", wn[w], av ? "avx" : "ref", (unsigned long long)nn);
+        int ir = c.add("res", R_OUT, 8 * nn), ia = c.add("a", R_IN, 8 * nn), ib = w < 2 ? c.add("b", R_IN, 8 * nn) : -1;
+        for (size_t i = 0; i < nn; ++i) {
+          int64_t x = probe62(i), y = vec_like_b(i);
+          put_i64(c.bufs[ia].init, i, x); if (ib >= 0) put_i64(c.bufs[ib].init, i, y);
+          put_i64(c.bufs[ir].exp, i, w == 0 ? x + y : w == 1 ? x - y : -x);
+        }
+        mask_all(c.bufs[ir], 1);
+        c.call = [nn, av, w, ir, ia, ib](uint8_t** p) {
+          int64_t* r = (int64_t*)p[ir]; const int64_t* a = (const int64_t*)p[ia]; const int64_t* b = ib >= 0 ? (const int64_t*)p[ib] : 0;
+          if (w == 0) { if (av) znx_add_i64_avx(nn, r, a, b); else znx_add_i64_ref(nn, r, a, b); }
+          else if (w == 1) { if (av) znx_sub_i64_avx(nn, r, a, b); else znx_sub_i64_ref(nn, r, a, b); }
+          else { if (av) znx_negate_i64_avx(nn, r, a); else znx_negate_i64_ref(nn, r, a); } };
+        fn(c, ki);
       }
       for (int av = 0; av < 2; ++av) {
         ApiCase c; c.id = sfmt("kernel|rnx_divide_by_m_%s|nn=%llu", av ? "avx" : "ref", (unsigned long long)nn);
